@@ -34,6 +34,11 @@ ASSUMPTIONS = ['exact apply-time oracle only on exactly representable grids and 
 
 
 def gen(r, tier, i):
+    if r.random() < 0.03:
+        # processes that are created, deleted, divided and moved while updates are in flight: C10's structural
+        # workload, judged here on the cells' ledgers only (no update applied twice or after a later one)
+        from vmon.checks import c10
+        return {'class': 'structural', 'c10': c10.gen(r, tier, i)}
     k = r.random()
     cls = 'exact' if k < 0.5 else 'weak'
     par = r.random() < (0.01 if tier == 'thorough' else 0.005)
@@ -90,6 +95,10 @@ def exact(x, grid):
 
 
 def run(spec):
+    if spec.get('class') == 'structural':
+        from vmon.checks import c10
+        from vmon.util import harvest
+        return harvest(c10.run(spec['c10']), ('ledger_in_order', 'no_exception'), ['structural'])
     from vmon.sensors import Mon, drive
     V = Viol()
     m = Mon()
